@@ -165,6 +165,21 @@ Theorem c01_call_sites_benign : forall arg, 0 <= arg ->
 Proof. exact site_benign. Qed.
 Print Assumptions c01_call_sites_benign.
 
+(* codes.Acceptable as regenerated from rpc/internal/codes/accept.go, for EVERY numeric code -- the named ones 0..16
+   (Unauthenticated = 16 lies above the server-fault block 12..15) and unnamed ones alike: exactly the five codes of
+   the statement are failures *)
+Theorem c01_grpc_every_code : forall c,
+  gen_grpc_acceptable c = negb (existsb (Z.eqb c) [4; 13; 14; 15; 12]).
+Proof. exact link_grpc_gen. Qed.
+Print Assumptions c01_grpc_every_code.
+
+(* HTTP through the chain the engine assembles (BreakerHandler outside RecoverHandler): the mark is a success exactly
+   when the status the client gets is below 500; a handler that panics on every request is a failure every time *)
+Theorem c01_engine_marks :
+  (forall cl c, h_mark cl c = h_benign cl c) /\ (forall cl c, (4 <= cl)%nat -> h_mark cl c = false).
+Proof. exact engine_marks. Qed.
+Print Assumptions c01_engine_marks.
+
 (* ---------------- non-vacuity ---------------- *)
 Example c01_rejection_happens :
   match new_rw nbuckets bucket_ns false 0 with
